@@ -173,7 +173,9 @@ def plan(tier, seed):
     for sk, n in (("T1", 2), ("T2", 2), ("T3", 2), ("T4", 2), ("T5", 2), ("T7", 3)):
         p.append(("totals", dict(skeleton=sk, n=n, drivers=["intens"])))
     p.append(("totals", dict(skeleton="T3", n=2, drivers=["power", "job"])))
-    p.append(("totals", dict(skeleton="T2c", n=2, drivers=["intens"])))      # two countries on one network
+    p.append(("totals", dict(skeleton="T2c", n=2, drivers=["intens"])))
+    p.append(("totals", dict(skeleton="TX", n=2, drivers=["intens"])))
+    p.append(("totals", dict(skeleton="TX", n=2, drivers=["job"], args={"shared": True})))      # two countries on one network
     p.append(("totals", dict(skeleton="T1", n=2, drivers=["capacity"])))
     p.append(("totals", dict(skeleton="T5", n=2, drivers=["intens"], same_names=True)))
     p.append(("totals", dict(skeleton="T3", n=2, drivers=["power"], same_names=True)))
